@@ -1,4 +1,6 @@
-(* uv__utf8_decode1 (Model/Idna.v) against table 3-7 (Spec/Utf8Spec.v). *)
+(* uv__utf8_decode1 (Model/Idna.v) against table 3-7 (Spec/Utf8Spec.v): the current
+   decoder accepts exactly the well-formed sequences; the decoder before commit
+   a779eb0 ([..._before]) was sound but accepted ill-formed input. *)
 From UV Require Import Lib.Base Model.Idna Spec.Utf8Spec Proofs.IdnaBits.
 Local Open Scope N_scope.
 
@@ -10,6 +12,234 @@ Ltac cmp :=
   end.
 
 (* ---- which arm of the switch runs ---- *)
+Lemma slow2_before a d r : 192 <= a <= 223 ->
+  utf8_decode1_slow_before_a779eb0 (d :: r) a = utf8_tail_before_a779eb0 128 0 128 (N.lor 128 (N.land a 31)) d r.
+Proof.
+  intros Ha. unfold utf8_decode1_slow_before_a779eb0.
+  destruct (N.ltb_spec 247 a); [lia|].
+  destruct (N.ltb_spec 239 a); [lia|].
+  destruct (N.ltb_spec 223 a); [lia|].
+  destruct (N.ltb_spec 191 a); [|lia].
+  destruct r as [|x [|y r]]; reflexivity.
+Qed.
+
+Lemma slow3_before a c d r : 224 <= a <= 239 ->
+  utf8_decode1_slow_before_a779eb0 (c :: d :: r) a = utf8_tail_before_a779eb0 2048 0 (N.lor 128 (N.land a 15)) c d r.
+Proof.
+  intros Ha. unfold utf8_decode1_slow_before_a779eb0.
+  destruct (N.ltb_spec 247 a); [lia|].
+  destruct (N.ltb_spec 239 a); [lia|].
+  destruct (N.ltb_spec 223 a); [|lia].
+  destruct r as [|x r]; reflexivity.
+Qed.
+
+Lemma slow4_before a b c d r : 240 <= a <= 247 ->
+  utf8_decode1_slow_before_a779eb0 (b :: c :: d :: r) a = utf8_tail_before_a779eb0 65536 (N.land a 7) b c d r.
+Proof.
+  intros Ha. unfold utf8_decode1_slow_before_a779eb0.
+  destruct (N.ltb_spec 247 a); [lia|].
+  destruct (N.ltb_spec 239 a); [|lia].
+  reflexivity.
+Qed.
+
+(* ---- lines 117-134 on three continuation bytes ---- *)
+Definition tail_value (a b c d : N) : N :=
+  a * 262144 + (b - 128) * 4096 + (c - 128) * 64 + (d - 128).
+
+Lemma tail_cont_before min a b c d r :
+  a < 8 -> 128 <= b <= 191 -> 128 <= c <= 191 -> 128 <= d <= 191 ->
+  utf8_tail_before_a779eb0 min a b c d r =
+    let v := tail_value a b c d in
+    if v <? min then (UINT_MAX, r)
+    else if 1114111 <? v then (UINT_MAX, r)
+    else if (55296 <=? v) && (v <=? 57343) then (UINT_MAX, r)
+    else (v, r).
+Proof.
+  intros Ha Hb Hc Hd. unfold utf8_tail_before_a779eb0.
+  rewrite (xor_test_cont b c d Hb Hc Hd). cbn [N.eqb Pos.eqb negb].
+  rewrite !land63, shl18, shl12, shl6.
+  replace (b mod 64) with (b - 128) by lia.
+  replace (c mod 64) with (c - 128) by lia.
+  replace (d mod 64) with (d - 128) by lia.
+  rewrite (lor_add18 a ((b - 128) * 4096)) by lia.
+  replace (a * 262144 + (b - 128) * 4096) with ((a * 64 + (b - 128)) * 4096) by lia.
+  rewrite (lor_add12 _ ((c - 128) * 64)) by lia.
+  replace ((a * 64 + (b - 128)) * 4096 + (c - 128) * 64)
+    with (((a * 64 + (b - 128)) * 64 + (c - 128)) * 64) by lia.
+  rewrite (lor_add6 _ (d - 128)) by lia.
+  replace (((a * 64 + (b - 128)) * 64 + (c - 128)) * 64 + (d - 128))
+    with (tail_value a b c d) by (unfold tail_value; lia).
+  reflexivity.
+Qed.
+
+(* ---- soundness: every well-formed sequence decodes to its scalar value and
+        the pointer advances by exactly its length ---- *)
+Theorem utf8_decode_sound_before bs v rest :
+  utf8_wf bs v -> utf8_decode1_before_a779eb0 (bs ++ rest) = (v, rest).
+Proof.
+  intros H. destruct H; unfold rng in *; cbn [app utf8_decode1_before_a779eb0].
+  - destruct (N.ltb_spec b1 128); [reflexivity|lia].
+  - destruct (N.ltb_spec b1 128); [lia|].
+    rewrite slow2_before by lia. rewrite land31.
+    rewrite lor128 by lia.
+    rewrite tail_cont_before by lia. cbv zeta. unfold tail_value, v2.
+    replace (0 * 262144 + (128 - 128) * 4096 + (128 + b1 mod 32 - 128) * 64 + (b2 - 128))
+      with ((b1 - 192) * 64 + (b2 - 128)) by lia.
+    cmp. reflexivity.
+  - destruct (N.ltb_spec b1 128); [lia|]. subst b1.
+    rewrite slow3_before by lia. change (N.lor 128 (N.land 224 15)) with 128.
+    rewrite tail_cont_before by lia. cbv zeta. unfold tail_value, v3. cmp; cbn [andb]; try lia.
+    f_equal; lia.
+  - destruct (N.ltb_spec b1 128); [lia|].
+    rewrite slow3_before by lia. rewrite land15, lor128 by lia.
+    rewrite tail_cont_before by lia. cbv zeta. unfold tail_value, v3.
+    replace (0 * 262144 + (128 + b1 mod 16 - 128) * 4096 + (b2 - 128) * 64 + (b3 - 128))
+      with ((b1 - 224) * 4096 + (b2 - 128) * 64 + (b3 - 128)) by lia.
+    cmp; cbn [andb]; try lia. reflexivity.
+  - destruct (N.ltb_spec b1 128); [lia|]. subst b1.
+    rewrite slow3_before by lia. change (N.lor 128 (N.land 237 15)) with 141.
+    rewrite tail_cont_before by lia. cbv zeta. unfold tail_value, v3. cmp; cbn [andb]; try lia.
+    f_equal; lia.
+  - destruct (N.ltb_spec b1 128); [lia|].
+    rewrite slow3_before by lia. rewrite land15, lor128 by lia.
+    rewrite tail_cont_before by lia. cbv zeta. unfold tail_value, v3.
+    replace (0 * 262144 + (128 + b1 mod 16 - 128) * 4096 + (b2 - 128) * 64 + (b3 - 128))
+      with ((b1 - 224) * 4096 + (b2 - 128) * 64 + (b3 - 128)) by lia.
+    cmp; cbn [andb]; try lia. reflexivity.
+  - destruct (N.ltb_spec b1 128); [lia|]. subst b1.
+    rewrite slow4_before by lia. change (N.land 240 7) with 0.
+    rewrite tail_cont_before by lia. cbv zeta. unfold tail_value, v4. cmp; cbn [andb]; try lia.
+    f_equal; lia.
+  - destruct (N.ltb_spec b1 128); [lia|].
+    rewrite slow4_before by lia. rewrite land7.
+    rewrite tail_cont_before by lia. cbv zeta. unfold tail_value, v4.
+    replace (b1 mod 8 * 262144) with ((b1 - 240) * 262144) by lia.
+    cmp; cbn [andb]; try lia. reflexivity.
+  - destruct (N.ltb_spec b1 128); [lia|]. subst b1.
+    rewrite slow4_before by lia. change (N.land 244 7) with 4.
+    rewrite tail_cont_before by lia. cbv zeta. unfold tail_value, v4. cmp; cbn [andb]; try lia.
+    f_equal; lia.
+Qed.
+
+(* the value of a well-formed sequence is a scalar value below 2^32-1, so
+   "decodes to its scalar value" also says "is not reported as an error" *)
+Lemma utf8_wf_scalar bs v : utf8_wf bs v -> scalar v.
+Proof.
+  unfold scalar. intros H; destruct H; unfold rng in *; unfold v2, v3, v4; lia.
+Qed.
+
+Lemma utf8_wf_length bs v : utf8_wf bs v -> (1 <= length bs <= 4)%nat.
+Proof. intros H; destruct H; cbn; lia. Qed.
+
+(* ------------------------------------------------------------------ *)
+(* The full statement, its refutation for the decoder before a779eb0,  *)
+(* and its proof for the current decoder.                              *)
+(* ------------------------------------------------------------------ *)
+
+(* "a sequence is accepted exactly when it starts with a well-formed one" *)
+Definition utf8_decode_iff_wellformed (dec : list N -> N * list N) : Prop :=
+  forall s, s <> [] -> Forall byte s ->
+    (fst (dec s) <> UINT_MAX <-> utf8_wf_prefix s).
+
+Lemma not_wf_prefix_E4_41_41 : ~ utf8_wf_prefix [228; 65; 65].
+Proof.
+  intros (bs & v & rest & E & W).
+  destruct W; unfold rng in *; cbn in E; injection E; intros; subst; lia.
+Qed.
+
+Lemma not_wf_prefix_F1_80_80 : ~ utf8_wf_prefix [241; 128; 128].
+Proof.
+  intros (bs & v & rest & E & W).
+  destruct W; unfold rng in *; cbn in E; try (injection E; intros; subst; lia).
+  all: discriminate E.
+Qed.
+
+Lemma bytes3 a b c : a < 256 -> b < 256 -> c < 256 -> Forall byte [a; b; c].
+Proof. intros; repeat constructor; assumption. Qed.
+
+Theorem utf8_before_a779eb0_accepts_illformed :
+  (exists s, s <> [] /\ Forall byte s /\
+     ~ (fst (utf8_decode1_before_a779eb0 s) <> UINT_MAX <-> utf8_wf_prefix s)) /\
+  (* E4 41 41: the xor of two equal non-continuation bytes passes the test *)
+  (utf8_decode1_before_a779eb0 [228; 65; 65] = (16449, []) /\ ~ utf8_wf_prefix [228; 65; 65]) /\
+  (* F1 80 80 at the end of the input: a truncated four-byte form is read as
+     a three-byte form *)
+  (utf8_decode1_before_a779eb0 [241; 128; 128] = (4096, []) /\ ~ utf8_wf_prefix [241; 128; 128]) /\
+  ~ utf8_decode_iff_wellformed utf8_decode1_before_a779eb0.
+Proof.
+  assert (A : utf8_decode1_before_a779eb0 [228; 65; 65] = (16449, [])) by (vm_compute; reflexivity).
+  assert (B : utf8_decode1_before_a779eb0 [241; 128; 128] = (4096, [])) by (vm_compute; reflexivity).
+  assert (F : Forall byte [228; 65; 65]) by (apply bytes3; reflexivity).
+  assert (W : ~ (fst (utf8_decode1_before_a779eb0 [228; 65; 65]) <> UINT_MAX <-> utf8_wf_prefix [228; 65; 65])).
+  { intros [H _]. apply not_wf_prefix_E4_41_41. apply H. rewrite A. cbn. discriminate. }
+  split; [|split; [|split; [|]]].
+  - exists [228; 65; 65]. split; [discriminate|]. split; [exact F|exact W].
+  - split; [exact A|exact not_wf_prefix_E4_41_41].
+  - split; [exact B|exact not_wf_prefix_F1_80_80].
+  - intros H. apply W. apply H; [discriminate|exact F].
+Qed.
+
+(* ---- the current decoder ---- *)
+Lemma combine a b c d :
+  a < 8 -> 128 <= b <= 191 -> 128 <= c <= 191 -> 128 <= d <= 191 ->
+  N.lor (N.lor (N.lor (N.shiftl a 18) (N.shiftl (N.land b 63) 12)) (N.shiftl (N.land c 63) 6))
+        (N.land d 63) = tail_value a b c d.
+Proof.
+  intros Ha Hb Hc Hd.
+  rewrite !land63, shl18, shl12, shl6.
+  replace (b mod 64) with (b - 128) by lia.
+  replace (c mod 64) with (c - 128) by lia.
+  replace (d mod 64) with (d - 128) by lia.
+  rewrite (lor_add18 a ((b - 128) * 4096)) by lia.
+  replace (a * 262144 + (b - 128) * 4096) with ((a * 64 + (b - 128)) * 4096) by lia.
+  rewrite (lor_add12 _ ((c - 128) * 64)) by lia.
+  replace ((a * 64 + (b - 128)) * 4096 + (c - 128) * 64)
+    with (((a * 64 + (b - 128)) * 64 + (c - 128)) * 64) by lia.
+  rewrite (lor_add6 _ (d - 128)) by lia.
+  unfold tail_value; lia.
+Qed.
+
+Lemma tail_cont min a b c d r :
+  a < 8 -> 128 <= b <= 191 -> 128 <= c <= 191 -> 128 <= d <= 191 ->
+  utf8_tail min a b c d r =
+    let v := tail_value a b c d in
+    if v <? min then (UINT_MAX, r)
+    else if 1114111 <? v then (UINT_MAX, r)
+    else if (55296 <=? v) && (v <=? 57343) then (UINT_MAX, r)
+    else (v, r).
+Proof.
+  intros Ha Hb Hc Hd. unfold utf8_tail.
+  rewrite !land192_cont' by lia.
+  replace ((128 <=? b) && (b <=? 191)) with true by (symmetry; apply andb_true_iff; split; apply N.leb_le; lia).
+  replace ((128 <=? c) && (c <=? 191)) with true by (symmetry; apply andb_true_iff; split; apply N.leb_le; lia).
+  replace ((128 <=? d) && (d <=? 191)) with true by (symmetry; apply andb_true_iff; split; apply N.leb_le; lia).
+  cbn [andb negb]. rewrite combine by assumption. reflexivity.
+Qed.
+
+Lemma tail_inv min a b c d r :
+  a < 8 -> b < 256 -> c < 256 -> d < 256 ->
+  fst (utf8_tail min a b c d r) <> UINT_MAX ->
+  128 <= b <= 191 /\ 128 <= c <= 191 /\ 128 <= d <= 191 /\
+  utf8_tail min a b c d r = (tail_value a b c d, r) /\
+  min <= tail_value a b c d <= 1114111 /\
+  ~ (55296 <= tail_value a b c d <= 57343).
+Proof.
+  intros Ha Hb Hc Hd H.
+  assert (C : (128 <= b <= 191 /\ 128 <= c <= 191 /\ 128 <= d <= 191) \/
+              ~ (128 <= b <= 191 /\ 128 <= c <= 191 /\ 128 <= d <= 191)) by lia.
+  destruct C as [(Cb & Cc & Cd)|C].
+  - rewrite tail_cont in * by assumption. cbv zeta in *.
+    destruct (N.ltb_spec (tail_value a b c d) min); [cbn in H; congruence|].
+    destruct (N.ltb_spec 1114111 (tail_value a b c d)); [cbn in H; congruence|].
+    destruct (N.leb_spec 55296 (tail_value a b c d));
+      destruct (N.leb_spec (tail_value a b c d) 57343); cbn [andb] in *;
+      try (cbn in H; congruence); repeat split; try assumption; try lia.
+  - exfalso. apply H. unfold utf8_tail. rewrite !land192_cont' by assumption.
+    destruct (N.leb_spec 128 b); destruct (N.leb_spec b 191);
+    destruct (N.leb_spec 128 c); destruct (N.leb_spec c 191);
+    destruct (N.leb_spec 128 d); destruct (N.leb_spec d 191); cbn [andb negb fst]; try reflexivity; lia.
+Qed.
+
 Lemma slow2 a d r : 192 <= a <= 223 ->
   utf8_decode1_slow (d :: r) a = utf8_tail 128 0 128 (N.lor 128 (N.land a 31)) d r.
 Proof.
@@ -40,38 +270,6 @@ Proof.
   reflexivity.
 Qed.
 
-(* ---- lines 117-134 on three continuation bytes ---- *)
-Definition tail_value (a b c d : N) : N :=
-  a * 262144 + (b - 128) * 4096 + (c - 128) * 64 + (d - 128).
-
-Lemma tail_cont min a b c d r :
-  a < 8 -> 128 <= b <= 191 -> 128 <= c <= 191 -> 128 <= d <= 191 ->
-  utf8_tail min a b c d r =
-    let v := tail_value a b c d in
-    if v <? min then (UINT_MAX, r)
-    else if 1114111 <? v then (UINT_MAX, r)
-    else if (55296 <=? v) && (v <=? 57343) then (UINT_MAX, r)
-    else (v, r).
-Proof.
-  intros Ha Hb Hc Hd. unfold utf8_tail.
-  rewrite (xor_test_cont b c d Hb Hc Hd). cbn [N.eqb Pos.eqb negb].
-  rewrite !land63, shl18, shl12, shl6.
-  replace (b mod 64) with (b - 128) by lia.
-  replace (c mod 64) with (c - 128) by lia.
-  replace (d mod 64) with (d - 128) by lia.
-  rewrite (lor_add18 a ((b - 128) * 4096)) by lia.
-  replace (a * 262144 + (b - 128) * 4096) with ((a * 64 + (b - 128)) * 4096) by lia.
-  rewrite (lor_add12 _ ((c - 128) * 64)) by lia.
-  replace ((a * 64 + (b - 128)) * 4096 + (c - 128) * 64)
-    with (((a * 64 + (b - 128)) * 64 + (c - 128)) * 64) by lia.
-  rewrite (lor_add6 _ (d - 128)) by lia.
-  replace (((a * 64 + (b - 128)) * 64 + (c - 128)) * 64 + (d - 128))
-    with (tail_value a b c d) by (unfold tail_value; lia).
-  reflexivity.
-Qed.
-
-(* ---- soundness: every well-formed sequence decodes to its scalar value and
-        the pointer advances by exactly its length ---- *)
 Theorem utf8_decode_sound bs v rest :
   utf8_wf bs v -> utf8_decode1 (bs ++ rest) = (v, rest).
 Proof.
@@ -119,218 +317,22 @@ Proof.
     f_equal; lia.
 Qed.
 
-(* the value of a well-formed sequence is a scalar value below 2^32-1, so
-   "decodes to its scalar value" also says "is not reported as an error" *)
-Lemma utf8_wf_scalar bs v : utf8_wf bs v -> scalar v.
-Proof.
-  unfold scalar. intros H; destruct H; unfold rng in *; unfold v2, v3, v4; lia.
-Qed.
-
-Lemma utf8_wf_length bs v : utf8_wf bs v -> (1 <= length bs <= 4)%nat.
-Proof. intros H; destruct H; cbn; lia. Qed.
-
-(* ------------------------------------------------------------------ *)
-(* The full statement, its refutation on the current code, and its     *)
-(* proof for the repaired decoder.                                     *)
-(* ------------------------------------------------------------------ *)
-
-(* "a sequence is accepted exactly when it starts with a well-formed one" *)
-Definition utf8_decode_iff_wellformed (dec : list N -> N * list N) : Prop :=
-  forall s, s <> [] -> Forall byte s ->
-    (fst (dec s) <> UINT_MAX <-> utf8_wf_prefix s).
-
-Lemma not_wf_prefix_E4_41_41 : ~ utf8_wf_prefix [228; 65; 65].
-Proof.
-  intros (bs & v & rest & E & W).
-  destruct W; unfold rng in *; cbn in E; injection E; intros; subst; lia.
-Qed.
-
-Lemma not_wf_prefix_F1_80_80 : ~ utf8_wf_prefix [241; 128; 128].
-Proof.
-  intros (bs & v & rest & E & W).
-  destruct W; unfold rng in *; cbn in E; try (injection E; intros; subst; lia).
-  all: discriminate E.
-Qed.
-
-Lemma bytes3 a b c : a < 256 -> b < 256 -> c < 256 -> Forall byte [a; b; c].
-Proof. intros; repeat constructor; assumption. Qed.
-
-Theorem utf8_accepts_illformed_refuted :
-  (exists s, s <> [] /\ Forall byte s /\
-     ~ (fst (utf8_decode1 s) <> UINT_MAX <-> utf8_wf_prefix s)) /\
-  (* E4 41 41: the xor of two equal non-continuation bytes passes the test *)
-  (utf8_decode1 [228; 65; 65] = (16449, []) /\ ~ utf8_wf_prefix [228; 65; 65]) /\
-  (* F1 80 80 at the end of the input: a truncated four-byte form is read as
-     a three-byte form *)
-  (utf8_decode1 [241; 128; 128] = (4096, []) /\ ~ utf8_wf_prefix [241; 128; 128]) /\
-  ~ utf8_decode_iff_wellformed utf8_decode1.
-Proof.
-  assert (A : utf8_decode1 [228; 65; 65] = (16449, [])) by (vm_compute; reflexivity).
-  assert (B : utf8_decode1 [241; 128; 128] = (4096, [])) by (vm_compute; reflexivity).
-  assert (F : Forall byte [228; 65; 65]) by (apply bytes3; reflexivity).
-  assert (W : ~ (fst (utf8_decode1 [228; 65; 65]) <> UINT_MAX <-> utf8_wf_prefix [228; 65; 65])).
-  { intros [H _]. apply not_wf_prefix_E4_41_41. apply H. rewrite A. cbn. discriminate. }
-  split; [|split; [|split; [|]]].
-  - exists [228; 65; 65]. split; [discriminate|]. split; [exact F|exact W].
-  - split; [exact A|exact not_wf_prefix_E4_41_41].
-  - split; [exact B|exact not_wf_prefix_F1_80_80].
-  - intros H. apply W. apply H; [discriminate|exact F].
-Qed.
-
-(* ---- the repaired decoder ---- *)
-Lemma combine a b c d :
-  a < 8 -> 128 <= b <= 191 -> 128 <= c <= 191 -> 128 <= d <= 191 ->
-  N.lor (N.lor (N.lor (N.shiftl a 18) (N.shiftl (N.land b 63) 12)) (N.shiftl (N.land c 63) 6))
-        (N.land d 63) = tail_value a b c d.
-Proof.
-  intros Ha Hb Hc Hd.
-  rewrite !land63, shl18, shl12, shl6.
-  replace (b mod 64) with (b - 128) by lia.
-  replace (c mod 64) with (c - 128) by lia.
-  replace (d mod 64) with (d - 128) by lia.
-  rewrite (lor_add18 a ((b - 128) * 4096)) by lia.
-  replace (a * 262144 + (b - 128) * 4096) with ((a * 64 + (b - 128)) * 4096) by lia.
-  rewrite (lor_add12 _ ((c - 128) * 64)) by lia.
-  replace ((a * 64 + (b - 128)) * 4096 + (c - 128) * 64)
-    with (((a * 64 + (b - 128)) * 64 + (c - 128)) * 64) by lia.
-  rewrite (lor_add6 _ (d - 128)) by lia.
-  unfold tail_value; lia.
-Qed.
-
-Lemma tail_fixed_cont min a b c d r :
-  a < 8 -> 128 <= b <= 191 -> 128 <= c <= 191 -> 128 <= d <= 191 ->
-  utf8_tail_fixed min a b c d r =
-    let v := tail_value a b c d in
-    if v <? min then (UINT_MAX, r)
-    else if 1114111 <? v then (UINT_MAX, r)
-    else if (55296 <=? v) && (v <=? 57343) then (UINT_MAX, r)
-    else (v, r).
-Proof.
-  intros Ha Hb Hc Hd. unfold utf8_tail_fixed.
-  rewrite !land192_cont' by lia.
-  replace ((128 <=? b) && (b <=? 191)) with true by (symmetry; apply andb_true_iff; split; apply N.leb_le; lia).
-  replace ((128 <=? c) && (c <=? 191)) with true by (symmetry; apply andb_true_iff; split; apply N.leb_le; lia).
-  replace ((128 <=? d) && (d <=? 191)) with true by (symmetry; apply andb_true_iff; split; apply N.leb_le; lia).
-  cbn [andb negb]. rewrite combine by assumption. reflexivity.
-Qed.
-
-Lemma tail_fixed_inv min a b c d r :
-  a < 8 -> b < 256 -> c < 256 -> d < 256 ->
-  fst (utf8_tail_fixed min a b c d r) <> UINT_MAX ->
-  128 <= b <= 191 /\ 128 <= c <= 191 /\ 128 <= d <= 191 /\
-  utf8_tail_fixed min a b c d r = (tail_value a b c d, r) /\
-  min <= tail_value a b c d <= 1114111 /\
-  ~ (55296 <= tail_value a b c d <= 57343).
-Proof.
-  intros Ha Hb Hc Hd H.
-  assert (C : (128 <= b <= 191 /\ 128 <= c <= 191 /\ 128 <= d <= 191) \/
-              ~ (128 <= b <= 191 /\ 128 <= c <= 191 /\ 128 <= d <= 191)) by lia.
-  destruct C as [(Cb & Cc & Cd)|C].
-  - rewrite tail_fixed_cont in * by assumption. cbv zeta in *.
-    destruct (N.ltb_spec (tail_value a b c d) min); [cbn in H; congruence|].
-    destruct (N.ltb_spec 1114111 (tail_value a b c d)); [cbn in H; congruence|].
-    destruct (N.leb_spec 55296 (tail_value a b c d));
-      destruct (N.leb_spec (tail_value a b c d) 57343); cbn [andb] in *;
-      try (cbn in H; congruence); repeat split; try assumption; try lia.
-  - exfalso. apply H. unfold utf8_tail_fixed. rewrite !land192_cont' by assumption.
-    destruct (N.leb_spec 128 b); destruct (N.leb_spec b 191);
-    destruct (N.leb_spec 128 c); destruct (N.leb_spec c 191);
-    destruct (N.leb_spec 128 d); destruct (N.leb_spec d 191); cbn [andb negb fst]; try reflexivity; lia.
-Qed.
-
-Lemma slow2_fixed a d r : 192 <= a <= 223 ->
-  utf8_decode1_slow_fixed (d :: r) a = utf8_tail_fixed 128 0 128 (N.lor 128 (N.land a 31)) d r.
-Proof.
-  intros Ha. unfold utf8_decode1_slow_fixed.
-  destruct (N.ltb_spec 247 a); [lia|].
-  destruct (N.ltb_spec 239 a); [lia|].
-  destruct (N.ltb_spec 223 a); [lia|].
-  destruct (N.ltb_spec 191 a); [|lia].
-  destruct r as [|x [|y r]]; reflexivity.
-Qed.
-
-Lemma slow3_fixed a c d r : 224 <= a <= 239 ->
-  utf8_decode1_slow_fixed (c :: d :: r) a = utf8_tail_fixed 2048 0 (N.lor 128 (N.land a 15)) c d r.
-Proof.
-  intros Ha. unfold utf8_decode1_slow_fixed.
-  destruct (N.ltb_spec 247 a); [lia|].
-  destruct (N.ltb_spec 239 a); [lia|].
-  destruct (N.ltb_spec 223 a); [|lia].
-  destruct r as [|x r]; reflexivity.
-Qed.
-
-Lemma slow4_fixed a b c d r : 240 <= a <= 247 ->
-  utf8_decode1_slow_fixed (b :: c :: d :: r) a = utf8_tail_fixed 65536 (N.land a 7) b c d r.
-Proof.
-  intros Ha. unfold utf8_decode1_slow_fixed.
-  destruct (N.ltb_spec 247 a); [lia|].
-  destruct (N.ltb_spec 239 a); [|lia].
-  reflexivity.
-Qed.
-
-Theorem utf8_decode_fixed_sound bs v rest :
-  utf8_wf bs v -> utf8_decode1_fixed (bs ++ rest) = (v, rest).
-Proof.
-  intros H. destruct H; unfold rng in *; cbn [app utf8_decode1_fixed].
-  - destruct (N.ltb_spec b1 128); [reflexivity|lia].
-  - destruct (N.ltb_spec b1 128); [lia|].
-    rewrite slow2_fixed by lia. rewrite land31.
-    rewrite lor128 by lia.
-    rewrite tail_fixed_cont by lia. cbv zeta. unfold tail_value, v2.
-    replace (0 * 262144 + (128 - 128) * 4096 + (128 + b1 mod 32 - 128) * 64 + (b2 - 128))
-      with ((b1 - 192) * 64 + (b2 - 128)) by lia.
-    cmp. reflexivity.
-  - destruct (N.ltb_spec b1 128); [lia|]. subst b1.
-    rewrite slow3_fixed by lia. change (N.lor 128 (N.land 224 15)) with 128.
-    rewrite tail_fixed_cont by lia. cbv zeta. unfold tail_value, v3. cmp; cbn [andb]; try lia.
-    f_equal; lia.
-  - destruct (N.ltb_spec b1 128); [lia|].
-    rewrite slow3_fixed by lia. rewrite land15, lor128 by lia.
-    rewrite tail_fixed_cont by lia. cbv zeta. unfold tail_value, v3.
-    replace (0 * 262144 + (128 + b1 mod 16 - 128) * 4096 + (b2 - 128) * 64 + (b3 - 128))
-      with ((b1 - 224) * 4096 + (b2 - 128) * 64 + (b3 - 128)) by lia.
-    cmp; cbn [andb]; try lia. reflexivity.
-  - destruct (N.ltb_spec b1 128); [lia|]. subst b1.
-    rewrite slow3_fixed by lia. change (N.lor 128 (N.land 237 15)) with 141.
-    rewrite tail_fixed_cont by lia. cbv zeta. unfold tail_value, v3. cmp; cbn [andb]; try lia.
-    f_equal; lia.
-  - destruct (N.ltb_spec b1 128); [lia|].
-    rewrite slow3_fixed by lia. rewrite land15, lor128 by lia.
-    rewrite tail_fixed_cont by lia. cbv zeta. unfold tail_value, v3.
-    replace (0 * 262144 + (128 + b1 mod 16 - 128) * 4096 + (b2 - 128) * 64 + (b3 - 128))
-      with ((b1 - 224) * 4096 + (b2 - 128) * 64 + (b3 - 128)) by lia.
-    cmp; cbn [andb]; try lia. reflexivity.
-  - destruct (N.ltb_spec b1 128); [lia|]. subst b1.
-    rewrite slow4_fixed by lia. change (N.land 240 7) with 0.
-    rewrite tail_fixed_cont by lia. cbv zeta. unfold tail_value, v4. cmp; cbn [andb]; try lia.
-    f_equal; lia.
-  - destruct (N.ltb_spec b1 128); [lia|].
-    rewrite slow4_fixed by lia. rewrite land7.
-    rewrite tail_fixed_cont by lia. cbv zeta. unfold tail_value, v4.
-    replace (b1 mod 8 * 262144) with ((b1 - 240) * 262144) by lia.
-    cmp; cbn [andb]; try lia. reflexivity.
-  - destruct (N.ltb_spec b1 128); [lia|]. subst b1.
-    rewrite slow4_fixed by lia. change (N.land 244 7) with 4.
-    rewrite tail_fixed_cont by lia. cbv zeta. unfold tail_value, v4. cmp; cbn [andb]; try lia.
-    f_equal; lia.
-Qed.
-
 Lemma form2 a d r : 192 <= a <= 223 -> d < 256 ->
-  fst (utf8_tail_fixed 128 0 128 (N.lor 128 (N.land a 31)) d r) <> UINT_MAX ->
+  fst (utf8_tail 128 0 128 (N.lor 128 (N.land a 31)) d r) <> UINT_MAX ->
   exists v, utf8_wf [a; d] v.
 Proof.
   intros Ha Hd H. rewrite land31, lor128 in H by lia.
-  apply tail_fixed_inv in H; try lia.
+  apply tail_inv in H; try lia.
   destruct H as (_ & _ & Cd & _ & Hv & _). unfold tail_value in Hv.
   exists (v2 a d). apply wf_C2_DF; unfold rng; lia.
 Qed.
 
 Lemma form3 a c d r : 224 <= a <= 239 -> c < 256 -> d < 256 ->
-  fst (utf8_tail_fixed 2048 0 (N.lor 128 (N.land a 15)) c d r) <> UINT_MAX ->
+  fst (utf8_tail 2048 0 (N.lor 128 (N.land a 15)) c d r) <> UINT_MAX ->
   exists v, utf8_wf [a; c; d] v.
 Proof.
   intros Ha Hc Hd H. rewrite land15, lor128 in H by lia.
-  apply tail_fixed_inv in H; try lia.
+  apply tail_inv in H; try lia.
   destruct H as (_ & Cc & Cd & _ & Hv & Hs). unfold tail_value in Hv, Hs.
   exists (v3 a c d).
   assert (C : a = 224 \/ 225 <= a <= 236 \/ a = 237 \/ 238 <= a <= 239) by lia.
@@ -342,11 +344,11 @@ Proof.
 Qed.
 
 Lemma form4 a b c d r : 240 <= a <= 247 -> b < 256 -> c < 256 -> d < 256 ->
-  fst (utf8_tail_fixed 65536 (N.land a 7) b c d r) <> UINT_MAX ->
+  fst (utf8_tail 65536 (N.land a 7) b c d r) <> UINT_MAX ->
   exists v, utf8_wf [a; b; c; d] v.
 Proof.
   intros Ha Hb Hc Hd H. rewrite land7 in H.
-  apply tail_fixed_inv in H; try lia.
+  apply tail_inv in H; try lia.
   destruct H as (Cb & Cc & Cd & _ & Hv & Hs). unfold tail_value in Hv, Hs.
   exists (v4 a b c d).
   assert (C : a = 240 \/ 241 <= a <= 243 \/ a = 244 \/ 245 <= a) by lia.
@@ -357,34 +359,34 @@ Proof.
   - exfalso. lia.
 Qed.
 
-Theorem utf8_decode_fixed_complete s :
-  s <> [] -> Forall byte s -> fst (utf8_decode1_fixed s) <> UINT_MAX -> utf8_wf_prefix s.
+Theorem utf8_decode_complete s :
+  s <> [] -> Forall byte s -> fst (utf8_decode1 s) <> UINT_MAX -> utf8_wf_prefix s.
 Proof.
   intros Hne HB H. destruct s as [|a rest]; [congruence|]. clear Hne.
   inversion HB as [|? ? Ba Brest]; subst. unfold byte in Ba.
-  cbn [utf8_decode1_fixed] in H.
+  cbn [utf8_decode1] in H.
   destruct (N.ltb_spec a 128) as [La|La].
   { exists [a], a, rest. split; [reflexivity|]. apply wf_00_7F; unfold rng; lia. }
   assert (W2 : forall d r, rest = d :: r -> 192 <= a <= 223 ->
-            fst (utf8_tail_fixed 128 0 128 (N.lor 128 (N.land a 31)) d r) <> UINT_MAX ->
+            fst (utf8_tail 128 0 128 (N.lor 128 (N.land a 31)) d r) <> UINT_MAX ->
             utf8_wf_prefix (a :: rest)).
   { intros d r -> Ha T. inversion Brest; subst.
     destruct (form2 a d r Ha ltac:(assumption) T) as [v Wv].
     exists [a; d], v, r. split; [reflexivity|exact Wv]. }
   assert (W3 : forall c d r, rest = c :: d :: r -> 224 <= a <= 239 ->
-            fst (utf8_tail_fixed 2048 0 (N.lor 128 (N.land a 15)) c d r) <> UINT_MAX ->
+            fst (utf8_tail 2048 0 (N.lor 128 (N.land a 15)) c d r) <> UINT_MAX ->
             utf8_wf_prefix (a :: rest)).
   { intros c d r -> Ha T. inversion Brest as [|? ? Bc Br]; subst. inversion Br; subst.
     destruct (form3 a c d r Ha ltac:(assumption) ltac:(assumption) T) as [v Wv].
     exists [a; c; d], v, r. split; [reflexivity|exact Wv]. }
   assert (W4 : forall b c d r, rest = b :: c :: d :: r -> 240 <= a <= 247 ->
-            fst (utf8_tail_fixed 65536 (N.land a 7) b c d r) <> UINT_MAX ->
+            fst (utf8_tail 65536 (N.land a 7) b c d r) <> UINT_MAX ->
             utf8_wf_prefix (a :: rest)).
   { intros b c d r -> Ha T. inversion Brest as [|? ? Bb Br]; subst.
     inversion Br as [|? ? Bc Br']; subst. inversion Br'; subst.
     destruct (form4 a b c d r Ha ltac:(assumption) ltac:(assumption) ltac:(assumption) T) as [v Wv].
     exists [a; b; c; d], v, r. split; [reflexivity|exact Wv]. }
-  unfold utf8_decode1_slow_fixed in H.
+  unfold utf8_decode1_slow in H.
   destruct (N.ltb_spec 247 a); [cbn in H; congruence|].
   destruct (N.ltb_spec 239 a); destruct (N.ltb_spec 223 a); destruct (N.ltb_spec 191 a); try lia;
     destruct rest as [|x [|y [|z r]]]; cbn [fst] in H; try congruence;
@@ -393,15 +395,16 @@ Proof.
           | eapply W2; [reflexivity|lia|exact H] ].
 Qed.
 
-Theorem utf8_decode_fixed_iff_wellformed : utf8_decode_iff_wellformed utf8_decode1_fixed.
+Theorem utf8_decode1_iff_wellformed : utf8_decode_iff_wellformed utf8_decode1.
 Proof.
   intros s Hne HB. split.
-  - apply utf8_decode_fixed_complete; assumption.
-  - intros (bs & v & rest & -> & W). rewrite (utf8_decode_fixed_sound bs v rest W). cbn [fst].
+  - apply utf8_decode_complete; assumption.
+  - intros (bs & v & rest & -> & W). rewrite (utf8_decode_sound bs v rest W). cbn [fst].
     pose proof (utf8_wf_scalar bs v W) as [Hv _]. unfold UINT_MAX. lia.
 Qed.
 
-(* On well-formed input the two decoders agree (the repair changes nothing there). *)
-Corollary utf8_decode_fixed_agrees bs v rest :
-  utf8_wf bs v -> utf8_decode1_fixed (bs ++ rest) = utf8_decode1 (bs ++ rest).
-Proof. intros W. rewrite (utf8_decode_sound bs v rest W). apply utf8_decode_fixed_sound; exact W. Qed.
+(* On well-formed input the decoder agrees with the one before a779eb0 (the repair
+   changed nothing there). *)
+Corollary utf8_decode_agrees_before bs v rest :
+  utf8_wf bs v -> utf8_decode1 (bs ++ rest) = utf8_decode1_before_a779eb0 (bs ++ rest).
+Proof. intros W. rewrite (utf8_decode_sound_before bs v rest W). apply utf8_decode_sound; exact W. Qed.
